@@ -27,6 +27,44 @@ META = {
 }
 
 
+def dirty_flag_rules(ctx, rule):
+    """persist flushes a dirty buffer; every append marks the buffer dirty first; the flag is cleared only after a successful flush"""
+    F = ctx.F
+    # ---- R-C02.3 persist reaches the OS
+    wp = ctx.fn(R.PERSIST, rule)
+    if wp:
+        pruned = A.prune_edges(wp, assume_field={"is_buffer_dirty": True})
+        fl = [b for b, t in wp.calls() if A.cname(t).endswith("as std::io::Write>::flush") and "BufWriter" in A.cname(t)]
+        ctx.floor(rule, "BufWriter::flush in Writer::persist", fl, 1)
+        if fl:
+            errs = A.err_region(wp, fl)
+            r = A.reach(wp, [0], avoid=fl, pruned=pruned)
+            rets = [x for x in wp.return_blocks() if x in r]
+            ctx.ob(rule, wp, "dirty-buffer-is-flushed", not rets,
+                   "with is_buffer_dirty set, every path through persist passes BufWriter::flush" if not rets else "persist can return with a dirty buffer without flushing it")
+            clears = [(b, st) for b, i, st in A.field_assigns(wp, "is_buffer_dirty") if A.stmt_const(st) == ("bool", False)]
+            rf = A.result_flow(wp, fl[0])
+            ok = bool(clears) and all(any(A.dominates(wp, okb, b) for okb in rf.ok_blocks) for b, _ in clears)
+            ctx.ob(rule, wp, "dirty-flag-cleared-only-after-successful-flush", ok,
+                   "is_buffer_dirty := false only on the Ok edge of flush" if ok else "is_buffer_dirty is cleared on a path that did not successfully flush (a later persist would skip the flush)")
+    for fid in R.APPEND:
+        fn = ctx.fn(fid, rule)
+        if not fn:
+            continue
+        sets = [(b, i) for b, i, st in A.field_assigns(fn, "is_buffer_dirty") if A.stmt_const(st) == ("bool", True)]
+        writes = A.blocks_calling(F, ctx.cg, fn, {"<std::io::BufWriter<std::fs::File> as std::io::Write>::write_all", "<std::io::BufWriter<W> as std::io::Write>::write_all"})
+        writes = [b for b in writes if "BufWriter" in (fn.term(b).get("full") or "") or A.cname(fn.term(b)) in (R.WRITER + "::write_start", R.WRITER + "::write_end")]
+        ok = bool(sets) and bool(writes) and all(any(A.dominates(fn, sb, w) for sb, _ in sets) for w in writes)
+        ctx.ob(rule, fn, "marks-buffer-dirty-before-writing", ok,
+               "is_buffer_dirty := true dominates all %d buffered writes" % len(writes) if ok else "a buffered journal write is not preceded by is_buffer_dirty := true (persist would skip the flush): sets=%s writes=%s" % (sets, writes))
+    for fid in F.fns:
+        fn = F.fns[fid]
+        for b, i, st in A.field_assigns(fn, "is_buffer_dirty"):
+            if fid not in R.APPEND + (R.PERSIST,):
+                ctx.ob(rule, fn, "foreign-write-to-dirty-flag", False, "is_buffer_dirty written outside the append primitives / persist", fn.loc(b))
+
+
+
 def run(ctx):
     F = ctx.F
     entries = R.write_entries(ctx)
@@ -147,38 +185,7 @@ def run(ctx):
                     ok = term.k == "param" and term.a[0] == 2
             ctx.ob("R-C02.2", fn, "setter-forwards-to-inner", ok, "transaction durability setter forwards `mode` to the inner BaseTransaction" if ok else "setter does not forward its parameter")
 
-    # ---- R-C02.3 persist reaches the OS
-    wp = ctx.fn(R.PERSIST, "R-C02.3")
-    if wp:
-        pruned = A.prune_edges(wp, assume_field={"is_buffer_dirty": True})
-        fl = [b for b, t in wp.calls() if A.cname(t).endswith("as std::io::Write>::flush") and "BufWriter" in A.cname(t)]
-        ctx.floor("R-C02.3", "BufWriter::flush in Writer::persist", fl, 1)
-        if fl:
-            errs = A.err_region(wp, fl)
-            r = A.reach(wp, [0], avoid=fl, pruned=pruned)
-            rets = [x for x in wp.return_blocks() if x in r]
-            ctx.ob("R-C02.3", wp, "dirty-buffer-is-flushed", not rets,
-                   "with is_buffer_dirty set, every path through persist passes BufWriter::flush" if not rets else "persist can return with a dirty buffer without flushing it")
-            clears = [(b, st) for b, i, st in A.field_assigns(wp, "is_buffer_dirty") if A.stmt_const(st) == ("bool", False)]
-            rf = A.result_flow(wp, fl[0])
-            ok = bool(clears) and all(any(A.dominates(wp, okb, b) for okb in rf.ok_blocks) for b, _ in clears)
-            ctx.ob("R-C02.3", wp, "dirty-flag-cleared-only-after-successful-flush", ok,
-                   "is_buffer_dirty := false only on the Ok edge of flush" if ok else "is_buffer_dirty is cleared on a path that did not successfully flush (a later persist would skip the flush)")
-    for fid in R.APPEND:
-        fn = ctx.fn(fid, "R-C02.3")
-        if not fn:
-            continue
-        sets = [(b, i) for b, i, st in A.field_assigns(fn, "is_buffer_dirty") if A.stmt_const(st) == ("bool", True)]
-        writes = A.blocks_calling(F, ctx.cg, fn, {"<std::io::BufWriter<std::fs::File> as std::io::Write>::write_all", "<std::io::BufWriter<W> as std::io::Write>::write_all"})
-        writes = [b for b in writes if "BufWriter" in (fn.term(b).get("full") or "") or A.cname(fn.term(b)) in (R.WRITER + "::write_start", R.WRITER + "::write_end")]
-        ok = bool(sets) and bool(writes) and all(any(A.dominates(fn, sb, w) for sb, _ in sets) for w in writes)
-        ctx.ob("R-C02.3", fn, "marks-buffer-dirty-before-writing", ok,
-               "is_buffer_dirty := true dominates all %d buffered writes" % len(writes) if ok else "a buffered journal write is not preceded by is_buffer_dirty := true (persist would skip the flush): sets=%s writes=%s" % (sets, writes))
-    for fid in F.fns:
-        fn = F.fns[fid]
-        for b, i, st in A.field_assigns(fn, "is_buffer_dirty"):
-            if fid not in R.APPEND + (R.PERSIST,):
-                ctx.ob("R-C02.3", fn, "foreign-write-to-dirty-flag", False, "is_buffer_dirty written outside the append primitives / persist", fn.loc(b))
+    dirty_flag_rules(ctx, "R-C02.3")
 
     # ---- R-C02.4 recovery order
     rec = ctx.fn("db::Database::recover", "R-C02.4")
@@ -251,6 +258,10 @@ def run(ctx):
                     src_ok = any(A.ends_with_field(x, "sealed") for x in A.walk(term))
                     ctx.ob("R-C02.4", rec, "sealed-list-passed-unreordered", src_ok and not bad,
                            "recover_sealed_memtables receives journal_recovery.sealed unreordered" if (src_ok and not bad) else "sealed journal list is reordered or not the recovered one: %s" % A.tstr(term)[:200], rec.loc(b))
+
+    # ---- R-C02.6 a sealed journal is deleted only when every live keyspace has persisted past its watermark (shared with C10)
+    from . import C10
+    C10.deletion_guard(ctx, "R-C02.6")
 
     # ---- R-C02.5 who may touch files
     n = FS.check_fs_table(ctx, "R-C02.5")
